@@ -137,5 +137,10 @@ def compile_many(jobs, workers=12, timeout=120):
     for i, r in enumerate(res):
         e = r.get("error") if isinstance(r, dict) else None
         if isinstance(e, dict) and "Timeout during evaluating constexpr" in str(e.get("description", "")):
-            res[i] = compile_one(jobs[i])
+            for _attempt in range(3):
+                res[i] = compile_one(jobs[i])
+                e2 = res[i].get("error") if isinstance(res[i], dict) else None
+                if not (isinstance(e2, dict) and "Timeout during evaluating constexpr" in str(e2.get("description", ""))):
+                    break
+                time.sleep(1.0)
     return res
